@@ -1,6 +1,8 @@
 package json
 
 import (
+	"errors"
+
 	"github.com/jsightapi/jsight-schema-go-library/bytes"
 )
 
@@ -138,6 +140,10 @@ func (g GuessData) LiteralJsonType() Type {
 		return TypeFloat
 	case g.IsShortcut():
 		return TypeMixed
+	}
+	// A number the library refuses to expand is reported as such.
+	if _, err := g.Number(); errors.Is(err, errExponentTooLarge) {
+		panic(err)
 	}
 	panic("Node type can't be guessed by value (" + string(g.bytes) + ")")
 }
